@@ -118,6 +118,21 @@ theorem connect_leak_free (ps : List Nat) (k : Nat)
 example : (run (some (1, .fail)) (connectScript [0, 2, 4]) (start [])).2 ≠ .ok ∧
     (run (some (4, .fail)) (connectScript allProtocols) (start [])).2 ≠ .ok := by decide
 
+/-- The failure may strike in ANY of the four per-protocol steps (connect(), registration of
+    the interfaces, feature mapping, device_info()) of the protocol at ANY position `pos`:
+    fault point `4 * pos + step`.  In particular a protocol whose connect() has returned
+    (connection + task established) and whose bookkeeping then raises is closed too. -/
+theorem connect_leak_free_any_step (ps : List Nat) (pos step : Nat)
+    (hfail : (run (some (4 * pos + step, .fail)) (connectScript ps) (start [])).2 ≠ .ok) :
+    (run (some (4 * pos + step, .fail)) (connectScript ps) (start [])).1.ledger = [] :=
+  connect_leak_free ps (4 * pos + step) hfail
+
+/-- non-vacuity: device_info() of the second of three protocols raises — the call fails while
+    that protocol's connection and task exist (they are what the handler has to release) -/
+example : (run (some (4 * 1 + 3, .fail)) (connectScript [0, 2, 4]) (start [])).2 = .exc .fail ∧
+    (parkAt (4 * 1 + 3) (connectScript [0, 2, 4]) (start [])).1.own
+      = [.task 2, .conn 2, .task 0, .conn 0, .httpSession] := by decide
+
 /-- stream_file: failure or cancellation at ANY collaborator call, or a refusal, in ANY
     environment (other streams active, takeovers held by other protocols): the ledger is
     what it was before the call. -/
